@@ -97,6 +97,7 @@ type runner struct {
 	batchOf    map[int64]string // goroutine id -> tag of first member of its batch
 	assigned   []*jrpc2.Request // every request in assignment order (srv.assign)
 	badPush    bool             // pushes carry parameters that cannot be marshalled (step "badpush")
+	endedPush  bool             // pushes are issued with a context that has already ended (step "endedpush")
 	baseCtx    context.Context
 	baseCancel context.CancelFunc
 	waitDone   chan struct{}
@@ -196,6 +197,13 @@ func (r *runner) doCallback(ctx context.Context, srv *jrpc2.Server, c string) {
 		cctx = context.Background()
 	}
 	r.rec.Log("CallbackB", "c", c)
+	r.rmu.Lock()
+	ended := r.endedPush
+	r.rmu.Unlock()
+	if ended && ctx != noCtx { // the context has ended before the call is made: the request is transmitted all the same
+		r.rec.Log("CtxEnd", "c", c)
+		r.cbCancel[c]()
+	}
 	rsp, err := srv.Callback(cctx, "cbm", r.pushParams(c))
 	res, tag, code := "reply", "", 0
 	switch {
@@ -223,6 +231,14 @@ func (r *runner) doCallback(ctx context.Context, srv *jrpc2.Server, c string) {
 
 func (r *runner) doNotify(ctx context.Context, srv *jrpc2.Server) {
 	r.rec.Log("NotifyB")
+	r.rmu.Lock()
+	ended := r.endedPush
+	r.rmu.Unlock()
+	if ended { // Notify does not look at its context: an ended one changes nothing
+		c2, cancel := context.WithCancel(ctx)
+		cancel()
+		ctx = c2
+	}
 	err := srv.Notify(ctx, "pn", r.pushParams("pn"))
 	res := "ok"
 	switch {
@@ -480,6 +496,10 @@ func (r *runner) doStep(st Step) {
 		r.rec.Log("StopB")
 		r.srv.Stop()
 		r.rec.Log("StopE")
+	case "endedpush": // from now on pushes are issued with a context that has already ended
+		r.rmu.Lock()
+		r.endedPush = true
+		r.rmu.Unlock()
 	case "badpush": // from now on pushed requests carry parameters that cannot be marshalled
 		r.rmu.Lock()
 		r.badPush = true
